@@ -751,7 +751,10 @@ var mutations = []mutation{
 			if src == nil {
 				return ""
 			}
-			for uint32(len(m.Groups)) <= m.GroupCount && len(m.Groups) < 70000 {
+			if m.GroupCount > 64 {
+				m.GroupCount = uint32(len(m.Groups)) // keep the boundary case small: the point is the exact count
+			}
+			for uint32(len(m.Groups)) <= m.GroupCount && len(m.Groups) < 80 {
 				m.Groups = append(m.Groups, proto.Clone(src).(*pb.SignalPayload))
 			}
 			return "groups list has group_count + 1 entries, the last one holding a non-fixed signal"
